@@ -602,11 +602,18 @@ func (c *Canon) call(x *ssa.Call) string {
 	return name + "(" + strings.Join(args, ",") + ")"
 }
 
+// CanonOpaque: exported module functions that specifications name as atomic questions; they keep
+// their name in canonical forms however trivial their body is (or becomes).
+var CanonOpaque = map[string]bool{}
+
 // inlinable: a module function consisting of one block whose instructions are pure value
 // computations followed by a return (no stores, no calls to unknown effects are checked here:
 // calls inside are rendered as calls).
 func (c *Canon) inlinable(fn *ssa.Function) bool {
 	if !IsModPkg(FnPkgPath(fn)) || len(fn.Blocks) != 1 {
+		return false
+	}
+	if CanonOpaque[fn.String()] {
 		return false
 	}
 	b := fn.Blocks[0]
